@@ -71,6 +71,35 @@ def gen_cycle_case(rng, nmin=5, nmax=8, grid=False):
     return {"nodes": names, "card": card, "labels": labels, "factors": fs, "dup": False, "cycle": True}
 
 
+def gen_cliquey_case(rng, nmin=6, nmax=8):
+    """many maximal cliques that share one or two variables (a random partial 2-tree): the clique tree has several valid and many
+    invalid spanning trees, so the running-intersection property is a real constraint"""
+    n = rng.randint(nmin, nmax)
+    names = gen.node_names(rng, n, rng.choice(["str", "word", "int", "int0"]))
+    perm = list(range(n))
+    rng.shuffle(perm)
+    edges = {(0, 1), (1, 2), (0, 2)}
+    for v in range(3, n):
+        a, b = rng.choice(sorted(edges))
+        if rng.random() < .7:
+            edges |= {(a, v), (b, v)}           # new triangle on an existing edge
+        else:
+            edges.add((rng.choice([a, b]), v))   # pendant edge
+    card = [2] * n
+    labels = [gen.state_labels(rng, 2, rng.choice(["int", "str", "permint"])) for _ in range(n)]
+    fs = []
+    for a, b in sorted(edges):
+        a, b = perm[a], perm[b]
+        if rng.random() < .5:
+            a, b = b, a
+        fs.append({"scope": [a, b], "vals": [rs(x) for x in gen.rand_vals(rng, 4, "generic")]})
+    for v in range(n):
+        if rng.random() < .15:
+            fs.append({"scope": [v], "vals": [rs(x) for x in gen.rand_vals(rng, 2, "generic")]})
+    rng.shuffle(fs)        # also the order in which edges are inserted
+    return {"nodes": names, "card": card, "labels": labels, "factors": fs, "dup": False, "cliquey": True}
+
+
 def edges_of(case):
     E = set()
     for f in case["factors"]:
